@@ -392,6 +392,7 @@ def verify(c: Contract, call: Callable[[Dict[str, Any], Dict[str, Any]], Any],
         elif o["status"] == "undecided" and d["status"] == "discharged":
             d["status"] = "undecided"
             d["detail"] = o["detail"]
+            d["candidate"] = o.get("candidate")
 
     vrt.LOOP_CONTRACTS = {k: dict(v, owner=owner) for k, v in c.loops.items()}
     ns = make_ns()
